@@ -105,7 +105,12 @@ def run(ctx):
     for i in bad["known"][:3]:
         ctx.violation({"case": cases[i], "why": "accepted although a verification layer below the outer one does not verify (API >= 2.25: origin layers are not looked at)"}, key=KNOWN_KEY)
     for i in sorted(set(bad["stmt"]))[:5]:
-        ctx.violation({"case": cases[i], "why": "request accepted as authentically signed although not every verification layer carries valid signatures (and not the one-hop exemption)"})
+        c = cases[i]
+        why = "request accepted as authentically signed although not every verification layer carries valid signatures (and not the one-hop exemption)"
+        if not c["has_vh"]:
+            why = ("request WITHOUT verification header (TTL %d, meta header %s) accepted by VerifyRequestSignaturesWithContext/N3 from peer context `%s`, which is not an authenticated peer connection: "
+                   "the one-hop exemption was granted to a look-alike" % (c["ttl"], "present" if c["has_meta"] else "absent", c.get("peer")))
+        ctx.violation({"case": c, "why": why})
     for i in sorted(set(bad["mut"]) - set(bad["stmt"]))[:5]:
         ctx.violation({"case": cases[i], "why": "a request whose signed body / meta header bytes were changed after signing was accepted"})
     for i in sorted(set(bad["model"]) - set(bad["stmt"]) - set(bad["mut"]))[:5]:
@@ -120,15 +125,27 @@ def run(ctx):
 
     def facts(c):
         return {k: c[k] for k in ("has_vh", "layers", "layers_n3", "has_meta", "nmeta", "has_ver", "major", "minor", "ttl", "trusted")}
+    unsigned_ttl1 = {}
+    for c in cases:
+        if not c["has_vh"] and c["has_meta"] and c["ttl"] == 1:
+            a, r = unsigned_ttl1.get(c.get("peer", "?"), (0, 0))
+            unsigned_ttl1[c.get("peer", "?")] = (a + 1, r) if c["ctx"] else (a, r + 1)
     ctx.cov.update({
         "evaluations": len(cases),
         "distinct_nontrivial": vlib.distinct_count([facts(c) for c in cases if c["has_vh"]]),
         "rule": "DeleteRequests signed with 1-3 layers (each layer one of ECDSA SHA-512 / RFC6979 / WalletConnect / N3 witness), API version current (2.25+), legacy (<2.25), other majors or missing, TTL 0..7, nil body / nil meta header, "
-                "4 kinds of peer context; the unmutated request is verified first, then one of 21 wire mutations (60%); non-trivial = has a verification header; distinct by facts",
+                "14 kinds of peer context (no peer, no AuthInfo, other AuthInfo, peerauth.AuthInfo literal with/without key, the outcome of the node's server handshake for a P-256 / no / RSA / P-384 / Ed25519 client certificate, "
+                "unbound credentials.TLSInfo with a P-256 certificate, foreign AuthInfo with AuthType \"tls\", pointer to / wrapper around peerauth.AuthInfo); a deterministic matrix peer kind x (unsigned at TTL 1/0/2 x version current/legacy/missing, "
+                "unsigned without meta header, signed intact 1-2 layers, signed with changed body / signature value / removed body or meta signature) precedes the random stream; "
+                "the unmutated request is verified first, then one of 21 wire mutations (60%); non-trivial = has a verification header; distinct by facts",
         "verdict_histogram": dict(collections.Counter("plain=%d ctx=%d n3=%d" % (c["plain"], c["ctx"], c["n3"]) for c in cases)),
         "mutation_histogram": dict(collections.Counter(c["mut"] or "none" for c in cases)),
         "accepted_after_mutation_of_accepted": dict(collections.Counter(c["mut"] for c in cases if c["mut"] and c["base"] and (c["plain"] or c["n3"]))),
         "known_class_cases": len(bad["known"]),
         "exempt_cases": sum(1 for c in cases if (not c["has_vh"]) and c["ctx"]),
+        "peer_histogram": dict(collections.Counter(c.get("peer", "?") for c in cases)),
+        # the exemption decision point (no verification header, meta header with TTL 1) per peer kind: accepted / refused by WithContext
+        "unsigned_ttl1_by_peer": {k: "%d accepted / %d refused" % (a, r) for k, (a, r) in sorted(unsigned_ttl1.items())},
+        "forced_matrix_cases": sum(1 for c in cases if c.get("forced")),
         "samples": cases[:3],
     })
